@@ -65,7 +65,9 @@ class Ctx:
         self.state = state
         self.replaying = replaying
         self.examples = int(budget.get("examples", 10))
-        self.deadline = time.monotonic() + float(budget.get("wall", 60))
+        self.wall = float(budget.get("wall", 60))
+        self.deadline = time.monotonic() + self.wall
+        self.phase_deadline = self.deadline
         self.evaluations = 0
         self.nontrivial_set = set()
         self.samples = []
@@ -79,7 +81,7 @@ class Ctx:
 
     # ---- bookkeeping -------------------------------------------------------------
     def out_of_time(self) -> bool:
-        return time.monotonic() > self.deadline
+        return time.monotonic() > min(self.deadline, self.phase_deadline)
 
     def count(self, n=1):
         self.evaluations += n
@@ -180,8 +182,12 @@ class Ctx:
                           fh, indent=1, default=str)
         self.violation = {"bucket": v.bucket, "detail": v.detail, "replay": path}
 
-    def run_given(self, strategy, case_fn, *, examples=None, label=None):
-        """Hypothesis search: draw spec from `strategy`, run case_fn(spec, ctx)."""
+    def run_given(self, strategy, case_fn, *, examples=None, label=None, share=None):
+        """Hypothesis search: draw spec from `strategy`, run case_fn(spec, ctx).
+
+        share: fraction of the shard's wall budget this phase may use (so that a cheap, high-count phase cannot
+        starve the phases after it); None = whatever is left."""
+        self.phase_deadline = self.deadline if share is None else min(self.deadline, time.monotonic() + share * self.wall)
         import hypothesis
         from hypothesis import HealthCheck, Phase, given, settings
 
